@@ -135,6 +135,10 @@ def stepLine (st : HState) (line : String) : HState × List String :=
     match r.toNat? with
     | some r => ({ st with sys := st.sys.abort r }, ["sync aborted"])
     | none => (st, ["bad-op"])
+  | ["D"] =>
+    -- the server discards the versions before its snapshot; the model's chain keeps them (no
+    -- replica of a conforming implementation asks for them again)
+    (st, [s!"discarded {match st.sys.snap with | some (v, _) => v | none => 0}"])
   | ["Q"] =>
     let S := st.sys
     let reps := (List.range st.nreps).map fun r =>
